@@ -111,6 +111,59 @@ def ep_model(seq, mode):
     return text, out
 
 
+# ---------------------------------------------------------------- end to end through the shell
+
+E2E_DOCS = [
+    'Let $x$ be given. Then $y$ Holds and $z$, where $u$ is a point A or b.\n',
+    '\\usepackage{babel}\nWe see \\foreignlanguage{german}{Ja} Appears here, and \\foreignlanguage{german}{Nein} follows. Also $a$ Is it.\n',
+    'Thus\n\\begin{equation} a = b \\end{equation}\nWhere c is d. And \\[e\\] Then f.\n',
+    '\\usepackage{babel}\n\\selectlanguage{german}Ein A und $x$ Oder \\foreignlanguage{english}{the b} Z.\n',
+    'A e.g. B i.e. c $q$. D\n',
+]
+E2E_SL = [None, 'A|a', 'A|a||', 'e.g.|i.e.||']
+E2E_EP = [None, 'displayed', 'inline', 'all']
+INL_EN = ['B-B-B', 'C-C-C', 'D-D-D', 'E-E-E', 'F-F-F', 'G-G-G']
+DSP_EN = ['U-U-U', 'V-V-V', 'W-W-W', 'X-X-X', 'Y-Y-Y', 'Z-Z-Z']
+LCR_EN = ['K-K-K', 'L-L-L', 'M-M-M', 'N-N-N']
+
+
+def ep_text_model(text, members):
+    """equation placeholders (whole words from `members`) that are not followed by a full stop, nor - optionally after , ; : -
+    by another placeholder or a lower-case word"""
+    out = []
+    i = 0
+    while i < len(text):
+        m = next((p for p in members if text.startswith(p, i)), None)
+        if not m or (i > 0 and isword(text[i - 1])) or (i + len(m) < len(text) and isword(text[i + len(m)])):
+            i += 1
+            continue
+        j = i + len(m)
+        while j < len(text) and text[j].isspace():
+            j += 1
+        ok = False
+        if j < len(text) and text[j] == '.':
+            ok = True
+        else:
+            if j < len(text) and text[j] in ',;:':
+                j += 1
+                while j < len(text) and text[j].isspace():
+                    j += 1
+            nxt = next((p for p in members if text.startswith(p, j)), None)
+            if nxt and not (j + len(nxt) < len(text) and isword(text[j + len(nxt)])):
+                ok = True
+            else:
+                w = ''
+                jj = j
+                while jj < len(text) and isletter(text[jj]):
+                    w += text[jj]
+                    jj += 1
+                ok = bool(w) and w[0].islower()
+        if not ok:
+            out.append(i)
+        i += len(m)
+    return out
+
+
 class C20:
     id = 'C20'
     level = 'model_checking'
@@ -124,8 +177,68 @@ class C20:
         'letters a B ä x stand for all letters; U-U-U/V-V-V and B-B-B/C-C-C for the display / inline collections',
     ]
 
+    def init_worker(self):
+        import os
+        from .. import core
+        os.chdir(core.scratch_dir())
+
+    def judge_e2e(self, case):
+        """the same checks through the real shell: options as the user gives them, texts as the filter produces them"""
+        import os
+        from .. import core, shell
+        _, di, si, ei, ml = case
+        d = core.scratch_dir()
+        with open(os.path.join(d, 'e.tex'), 'w') as f:
+            f.write(E2E_DOCS[di])
+        argv = ['--language', 'en-GB']
+        if E2E_SL[si] is not None:
+            argv += ['--single-letters', E2E_SL[si]]
+        if E2E_EP[ei] is not None:
+            argv += ['--equation-punctuation', E2E_EP[ei]]
+        if ml:
+            argv += ['--multi-language']
+        sess = shell.Session(argv + ['e.tex'], lambda t, c: shell.lt_answer([]), cwd=d)
+        val, err, code, exc = sess._guarded(lambda: sess.proofreader.run_proofreader('e.tex'))
+        det = {'source': E2E_DOCS[di], 'argv': argv}
+        if val is None:
+            return {'viol': [{'clause': 'shell runs its checks', 'sig': 'C20:e2e:no-result', 'detail': dict(det, stderr=err[-300:], exc=exc, code=code)}],
+                    'out': 'none', 'nt': True, 'tr': 1}
+        tex, plain_tot, charmap, matches = val
+        parts = [t for c, t in sess.calls]
+        exp = []
+        shift = 0
+        for t in parts:
+            if E2E_SL[si] is not None:
+                acc = E2E_SL[si]
+                if acc.endswith('||'):
+                    acc += '|'.join(INL_EN + DSP_EN + (LCR_EN if ml else []))
+                m = sl_model(t, acc)
+                if m is None:
+                    return {'viol': [], 'out': 'skip', 'nt': False, 'tr': 1, 'cnt': {'skipped: overlapping accepted occurrences': 1}}
+                exp += [(shift + o, 'PRIVATE::SINGLE_LETTER') for o in m]
+            if E2E_EP[ei] is not None:
+                members = {'displayed': DSP_EN, 'inline': INL_EN, 'all': DSP_EN + INL_EN}[E2E_EP[ei]]
+                exp += [(shift + o, 'PRIVATE::EQUATION_PUNCTUATION') for o in ep_text_model(t, members)]
+            shift += len(t) + 2
+        got = sorted((m['offset'], m['rule']['id']) for m in matches)
+        viol = []
+        if got != sorted(exp):
+            extra = sorted(set(got) - set(exp))
+            kind = ('extra:' + extra[0][1]) if extra else 'missing'
+            viol.append({'clause': 'messages of the shell\'s own checks == the models applied to each submitted part',
+                         'sig': 'C20:e2e:%s:%s' % (kind, 'ml' if ml else 'single'),
+                         'detail': dict(det, parts=parts, got=got, expected=sorted(exp),
+                                        marked=[plain_tot[o:o + 12] for o, r in extra])})
+        for m in matches:
+            sel = plain_tot[m['offset']:m['offset'] + m['length']]
+            c = m['context']
+            if c['text'][c['offset']:c['offset'] + c['length']] != sel.replace('\n', ' '):
+                viol.append({'clause': 'context excerpt marks the same characters', 'sig': 'C20:e2e:context', 'detail': dict(det, match=m, selected=sel)})
+        return {'viol': viol[:2], 'out': got, 'nt': bool(exp), 'tr': 1}
+
     def bounds(self, tier):
-        return {'single_letters': {'alphabet': SL_ALPHA, 'max_len': 5 if tier == 'quick' else 6, 'accept_lists': SL_ACCEPT},
+        return {'end_to_end': {'documents': len(E2E_DOCS), 'single_letters': E2E_SL, 'equation_punctuation': E2E_EP, 'multi_language': [False, True]},
+                'single_letters': {'alphabet': SL_ALPHA, 'max_len': 5 if tier == 'quick' else 6, 'accept_lists': SL_ACCEPT},
                 'equation_punctuation': {'tokens': list(TOK.values()), 'max_len': 4 if tier == 'quick' else 5,
                                          'modes': list(MODES)}}
 
@@ -143,9 +256,17 @@ class C20:
                 if any(seq[i] in 'DEIlux-' and seq[i + 1] in 'DEIlux-' for i in range(len(seq) - 1)):
                     continue    # glued: a different word
                 yield ['e', ''.join(seq)]
+        for di in range(len(E2E_DOCS)):
+            for si in range(len(E2E_SL)):
+                for ei in range(len(E2E_EP)):
+                    for ml in (0, 1):
+                        if si or ei:
+                            yield ['shell', di, si, ei, ml]
 
     def judge(self, case):
         from yalafi.shell import checks
+        if case[0] == 'shell':
+            return self.judge_e2e(case)
         kind, text = case
         viol = []
         outs = []
@@ -202,6 +323,9 @@ class C20:
         return viol
 
     def explain(self, case):
+        if case[0] == 'shell':
+            return 'document %r\n--single-letters %r --equation-punctuation %r multi-language %r' % (
+                E2E_DOCS[case[1]], E2E_SL[case[2]], E2E_EP[case[3]], bool(case[4]))
         kind, text = case
         if kind == 's':
             return 'single letters: text %r; accept lists %r' % (text, SL_ACCEPT)
